@@ -205,7 +205,7 @@ theorem startEntry_runs (ext : WExt) (name : Bytes) (o : FileOptions)
 def rawOptions (src : FileData) : FileOptions :=
   { method := src.method, level := none, time := src.time, permissions := src.unixMode,
     largeFile := (if src.compressedSize ≥ src.uncompressedSize then src.compressedSize
-                  else src.uncompressedSize) > ZIP64_BYTES_THR,
+                  else src.uncompressedSize) ≥ ZIP64_BYTES_THR,
     encryptWith := none }
 
 /-- the record a raw copy of `src` under `name` creates at sink position `hs` -/
